@@ -57,7 +57,7 @@ theorem C17.url_roundtrip (p : Params) (h : WF p) : unmarshalURL Params.zero (ma
 
 /-- QUIC binary carrier -/
 theorem C17.bin_roundtrip (p : Params) (h : WF p) (hs : Short p) : unmarshalBin Params.zero (marshalBin p) = some p := by
-  sorry
+  exact unmarshalBin_marshalBin p (WF.toPWF h) ⟨hs.enc, hs.comp, hs.tid, hs.tgid⟩
 
 /-- well-formed key/value list for the binary form -/
 structure KVsOK (kvs : List (Bytes × Bytes)) : Prop where
@@ -73,7 +73,13 @@ structure KVsOK (kvs : List (Bytes × Bytes)) : Prop where
     (Input bytes are bytes: `< 256`.) -/
 theorem C17.bin_reader_exact (bs : Bytes) (hb : ∀ b ∈ bs, b < 256) (kvs : List (Bytes × Bytes)) :
     readKV bs = some kvs ↔ (bs = marshalBinKV kvs ∧ KVsOK kvs) := by
-  sorry
+  rw [readKV_iff bs hb kvs]
+  constructor
+  · rintro ⟨h1, h2, h3⟩
+    exact ⟨h1, ⟨fun e he => (h2 e he).1, fun e he => (h2 e he).2.1, fun e he => (h2 e he).2.2.1,
+      fun e he => (h2 e he).2.2.2.1, fun e he => (h2 e he).2.2.2.2, h3⟩⟩
+  · rintro ⟨h1, h2⟩
+    exact ⟨h1, fun e he => ⟨h2.nonempty e he, h2.klen e he, h2.vlen e he, h2.kutf e he, h2.vutf e he⟩, h2.nodup⟩
 
 /-- URL values with an empty key, or a key with zero or several values, are rejected -/
 theorem C17.url_rejects (p0 : Params) (vals : List (Bytes × List Bytes))
